@@ -904,6 +904,7 @@ func (x *Exec) i2f(st *State, t *Term) *Term {
 	st.add(Implies(Le(App("absi", SInt, t), lim), Eq(r, exact)))
 	st.add(Le(App("absr", SReal, Sub(r, exact)), Mul(App("absr", SReal, exact), u)))
 	st.add(Implies(Ge(t, Zero), Ge(r, RealLit("0"))))
+	st.add(Implies(Gt(t, Zero), Ge(r, RealLit("1"))), Implies(Lt(t, Zero), Le(r, RealLit("-1"))))
 	return r
 }
 
@@ -1135,8 +1136,27 @@ func (x *Exec) doSlice(st *State, s *ssa.Slice) {
 			base = xv.T
 		}
 		if isByteSlice(s.Type()) {
-			x.unsupported("byte array sliced")
-			st.regs[s] = Val{T: x.freshVar("bytes", SStr)}
+			// a small byte array with literal contents (the lowering of append(b, ' ', '%'))
+			if at.Len() <= 8 && s.Low == nil && s.High == nil {
+				k := x.elemKey(at.Elem())
+				arr := Select(st.heapArr(k, heapSorts[k]), base)
+				lit := make([]byte, 0, at.Len())
+				allLit := true
+				for i := int64(0); i < at.Len(); i++ {
+					if v, ok := Select(arr, IntLit(i)).IntVal(); ok && v.IsInt64() && v.Int64() >= 0 && v.Int64() < 256 {
+						lit = append(lit, byte(v.Int64()))
+					} else {
+						allLit = false
+					}
+				}
+				if allLit {
+					st.regs[s] = Val{T: x.strConst(string(lit))}
+					return
+				}
+			}
+			r := x.freshVar("bytes", SStr)
+			st.add(Eq(App("slen", SInt, r), Sub(hi, lo)))
+			st.regs[s] = Val{T: r}
 			return
 		}
 		st.regs[s] = Val{T: mkSlice(base, lo, Sub(hi, lo), Sub(mx, lo))}
